@@ -8,8 +8,11 @@
    tm_norm tbl c   : "the same call" = the call with its data argument cut to what the callee reads:
                      STRING/JSON: bytes up to and including the first NUL, size strlen+1 (data_size ignored);
                      other storage: the first data_size bytes; FSR: the first ceil(count*bits/8) bytes.  Nothing else.
-   tm_call_ok      : arguments are values of their C types, enum arguments (storage_type, annotation_type) < 256,
-                     caller buffers < 4 GiB, FSR payload length < 2^32.
+   tm_call_ok      : arguments are values of their C types (enum arguments storage_type / annotation_type: their
+                     uint32 value, unconstrained), caller buffers < 4 GiB.  Nothing about the enum range or the FSR
+                     payload length: since the repair of K-C06-fsr-len-trunc / K-C06-enum-trunc the producers reject
+                     such calls (C06_msg_out_of_range_rejected), so every ACCEPTED call is in range
+                     (C06_msg_accepted_in_range) and round trip / in bounds hold for every accepted call.
    All theorems are for ALL calls / tables / programs / schedules.  Padding bytes are modelled as zero although gcc
    leaves them uninitialised in the fsr / utc / annotation headers: C06_msg_padding_irrelevant shows the consumer's
    call does not depend on them.  Not covered: the unlocked read of the table by jls_twr_fsr (the table value is a
@@ -82,23 +85,47 @@ Theorem C06_msg_padding_irrelevant :
 Proof. exact tm_padding_irrelevant. Qed.
 Print Assumptions C06_msg_padding_irrelevant.
 
-(* the guards of tm_call_ok are needed (two defects of the format, both for unusual arguments):
-   (1) the FSR payload length is cast to uint32: jls_twr_fsr(signal 1 with 64-bit samples, 2^29 samples) queues a
-       40-byte message with sample_count = 2^29 and NO payload; jls_wr_fsr then reads 4 GiB behind it *)
-Theorem C06_msg_fsr_length_truncation_refuted :
-  exists m w, tm_encode tm_trunc_tbl tm_trunc_call = TmMsg m /\ len m = 40 /\ tm_decode m = Some w /\
-    w = TmWFsr 1 0 [] 536870912 /\ tm_wcall_inb tm_trunc_tbl w = false.
-Proof. exact tm_trunc_witness. Qed.
-Print Assumptions C06_msg_fsr_length_truncation_refuted.
+(* the two former truncation defects (K-C06-fsr-len-trunc, K-C06-enum-trunc) are repaired by rejection before
+   queueing.  Every call with an enum argument above 255 and every FSR call on a defined signal whose payload does
+   not fit a uint32 message beside the header returns JLS_ERROR_PARAMETER_INVALID (nothing is queued: TmRej) *)
+Theorem C06_msg_out_of_range_rejected :
+  forall (tbl : N -> N),
+  (forall meta stype data size, 255 < stype -> tm_encode tbl (TmUser meta stype data size) = TmRej JLS_ERROR_PARAMETER_INVALID) /\
+  (forall sig ts y atype group stype data size, 255 < stype \/ 255 < atype ->
+     tm_encode tbl (TmAnn sig ts y atype group stype data size) = TmRej JLS_ERROR_PARAMETER_INVALID) /\
+  (forall sig sid data count, sig < JLS_SIGNAL_COUNT -> tbl sig <> 0 ->
+     4294967295 - SIZEOF_msg_header < (count * tbl sig + 7) / 8 ->
+     tm_encode tbl (TmFsr sig sid data count) = TmRej JLS_ERROR_PARAMETER_INVALID).
+Proof. exact tm_out_of_range_rejected. Qed.
+Print Assumptions C06_msg_out_of_range_rejected.
 
-(* (2) the enum argument storage_type is tested as an int but stored in a uint8: 258 is not STRING for
-       jls_twr_annotation (payload = data_size bytes, no NUL) and arrives as 2 = STRING: jls_wr_annotation calls
-       strlen on a payload without NUL, and the call is not the one that was made *)
-Theorem C06_msg_enum_truncation_refuted :
-  exists m w, tm_encode tm_ex_tbl tm_enum_call = TmMsg m /\ tm_decode m = Some w /\
-    w = TmWAnn 1 0 0 1 0 2 [97; 98] 2 /\ tm_wcall_inb tm_ex_tbl w = false /\ w <> tm_norm tm_ex_tbl tm_enum_call.
-Proof. exact tm_enum_witness. Qed.
-Print Assumptions C06_msg_enum_truncation_refuted.
+(* conversely an accepted call is in range, whatever its arguments (no hypothesis) *)
+Theorem C06_msg_accepted_in_range :
+  forall (tbl : N -> N) (c : tm_call) (m : msg), tm_encode tbl c = TmMsg m ->
+  match c with
+  | TmUser _ stype _ _ => stype < 256
+  | TmAnn _ _ _ atype _ stype _ _ => stype < 256 /\ atype < 256
+  | TmFsr sig _ _ count => (count * tbl sig + 7) / 8 <= 4294967255
+  | _ => True
+  end.
+Proof. exact tm_accept_facts. Qed.
+Print Assumptions C06_msg_accepted_in_range.
+
+(* the former witnesses: (1) jls_twr_fsr(signal 1 with 64-bit samples, 2^29 samples = 2^32 bytes) used to queue a 40-byte
+   message with sample_count = 2^29 and no payload; it satisfies tm_call_ok and is now rejected *)
+Theorem C06_msg_fsr_length_overflow_rejected :
+  tm_call_ok tm_trunc_tbl tm_trunc_call /\
+  tm_encode tm_trunc_tbl tm_trunc_call = TmRej JLS_ERROR_PARAMETER_INVALID.
+Proof. exact tm_trunc_rejected. Qed.
+Print Assumptions C06_msg_fsr_length_overflow_rejected.
+
+(* (2) jls_twr_annotation with storage_type 258 (not STRING as an int, 2 = STRING as a uint8) used to be queued as
+   binary data and arrive as a STRING without NUL; it satisfies tm_call_ok and is now rejected *)
+Theorem C06_msg_enum_out_of_range_rejected :
+  tm_call_ok tm_ex_tbl tm_enum_call /\
+  tm_encode tm_ex_tbl tm_enum_call = TmRej JLS_ERROR_PARAMETER_INVALID.
+Proof. exact tm_enum_rejected. Qed.
+Print Assumptions C06_msg_enum_out_of_range_rejected.
 
 (* the FLUSH and CLOSE messages of the protocol model (TwrModel.tw_flush_msg / tw_close_msg) are the encodings *)
 Theorem C06_msg_flush_is_protocol_msg :
